@@ -59,6 +59,13 @@ def main():
             meta["demo_cmd"] = cmd.replace(wt, "<worktree>")
             if overlay and "-overlay" not in cmd:
                 cmd = cmd.replace("go test", "go test " + " ".join(ov), 1)
+            # a Go test demo: do not trust the agent's command line (placeholders, shell syntax): run the Test functions
+            # of the demo file in its package
+            if demo_path.endswith("_test.go") and demo_files:
+                names = _re.findall(r"(?m)^func (Test\w+)\(", open(os.path.join(d, demo_files[0])).read())
+                if names:
+                    cmd = "go test -vet=off -count=1 %s -run '^(%s)$' ./%s/" % (" ".join(ov), "|".join(names), os.path.dirname(demo_path))
+                    meta["demo_cmd"] = cmd.replace(wt, "<worktree>")
             rc0, o0 = sh("export GOFLAGS=-mod=mod GOPROXY=off; " + cmd, cwd=wt)
             rca, oa = sh(["git", "apply", os.path.join(d, "patch.diff")], cwd=wt)
             if rca != 0:  # /repo has moved on (fix commits) since the agent's worktree was made: merge
@@ -74,7 +81,7 @@ def main():
             if demo_path.endswith(".go"):
                 os.remove(os.path.join(wt, demo_path))
             pkgs = sorted(set("./" + os.path.dirname(f) + "/" for f in meta.get("files_touched", [])))
-            rc2, o2 = sh(["go", "test", "-vet=off", "-count=1"] + ov + pkgs, cwd=wt)
+            rc2, o2 = sh(["go", "test", "-vet=off", "-count=1", "-skip", "Test_SetupSelfMeta|TestResolve"] + ov + pkgs, cwd=wt)  # (those need DNS)
             ok = rc0 == 0 and rca == 0 and rc1 != 0 and rc2 == 0
             print("%s: demo unchanged=%s patched=%s existing-tests=%s -> %s" % (name, "pass" if rc0 == 0 else "FAIL", "fail" if rc1 != 0 else "PASS", "pass" if rc2 == 0 else "FAIL", "confirmed" if ok else "REJECTED"))
             if not ok:
